@@ -31,6 +31,8 @@ def run(ctx):
     _railrules.runner_order_once(ctx, "C02.a.order", flows, "output")
     b_flag(ctx, flows)
     c_checked_text_is_whole(ctx)
+    from . import C01
+    C01.b_param_binding(ctx, rule="C02.a.param-binding")
     scope, nm = _railrules.reject_stop(ctx, "C02.c.reject-stop", ("output",))
     ctx.floor("C02.c.reject-stop", "nemoguardrails/library", "rejection markers in output rails", nm, 30)
     d_v2(ctx)
